@@ -79,8 +79,7 @@ Proof.
   destruct (ps_before s) as [|cur [|p r]]; destruct (ps_after s) as [|x a].
   1-5: destruct (ps_first_line s) as [l|]; [destruct (N.leb 1 l)|]; reflexivity.
   destruct (find_prev (p :: r) (ps_pos s - 2) (ps_kept s)) as [[prev prev_pos]|]; [|reflexivity].
-  destruct (Nat.eqb (tk_fileid prev) (tk_fileid cur)); [|reflexivity].
-  match goal with |- context [if N.leb ?a ?b then _ else _] => destruct (N.leb a b) end; reflexivity.
+  repeat match goal with |- context [if ?c then _ else _] => destruct c end; reflexivity.
 Qed.
 Lemma smono_get_token c : smono (get_token c).
 Proof.
